@@ -1,5 +1,5 @@
 (* One entry point for the harness: request (list Z) -> reply (list Z). *)
-From JP Require Import Base.Json Extract.Wire Extract.WireAst Model.Slice Spec.Slice Model.Ast Model.Eval Spec.Sem Spec.Compare Model.Tokens Model.Lex Model.PyFloat Model.Parse Model.Api Spec.Rfc9535Grammar Spec.Types.
+From JP Require Import Base.Json Extract.Wire Extract.WireAst Model.Slice Spec.Slice Model.Ast Model.Eval Spec.Sem Spec.Compare Model.Tokens Model.Lex Model.PyFloat Model.Parse Model.Api Spec.Rfc9535Grammar Spec.Types Spec.StringLit.
 
 Definition iota_json (len : Z) : list json := map (fun k => JNum (NInt (Z.of_nat k))) (seq 0 (Z.to_nat len)).
 Definition enc_sel (r : list (Z * json)) : list Z := enc_list (fun p => fst p :: enc_json (snd p)) r.
@@ -82,6 +82,15 @@ Definition op_valid (r : list Z) : list Z :=
   | _ => bad_request
   end.
 
+(* [110; quote; body] -> RFC value of the string literal body *)
+Definition op_strlit (r : list Z) : list Z :=
+  match r with
+  | q :: r0 => match dec_str r0 with
+               | Some (b, _) => enc_opt enc_str (spec_decode (Z.to_N q) b)
+               | None => bad_request end
+  | _ => bad_request
+  end.
+
 (* opcodes: model side 1..99, specification side 101..199 *)
 Definition dispatch (req : list Z) : list Z :=
   match req with
@@ -93,6 +102,7 @@ Definition dispatch (req : list Z) : list Z :=
   | 104 :: r => op_in_rfc r
   | 106 :: r => op_cmp r
   | 109 :: r => op_valid r
+  | 110 :: r => op_strlit r
   | 7 :: len :: r =>        (* slice selector on [0, 1, ..., len-1] *)
     match dec_opt dec_z r with Some (s, r1) =>
     match dec_opt dec_z r1 with Some (e, r2) =>
